@@ -102,6 +102,14 @@ def _build(d):
     inputs = sorted(model['inputs'])
     changes = [[d.choice(inputs), d.choice([0, 1, -3, 2.5, 10, 100, 7])]
                for _ in range(d.pick(6))]
+    # input changes addressed through a defined name (when one is bound to
+    # an input): equivalent to using the address, in both models
+    in_names = [n['name'] for n in names
+                if n.get('addr') in model['inputs']]
+    if in_names:
+        changes.append([d.choice(in_names), d.choice([11, 0.5, 200])])
+        if d.pick(2):
+            focus.append(d.choice(in_names))
     return {'model': model, 'focus': sorted(set(focus)), 'pre': bool(
         d.pick(2)), 'changes': changes, 'names': names}
 
@@ -275,10 +283,17 @@ def judge(case):
     if not compare('before-changes'):
         return res
     for a, v in changes:
-        if a not in ex.cells:
+        addr = names[a]['addr'] if a in names else a
+        if addr not in ex.cells or (a in names
+                                    and a not in ex.defined_names):
             continue
         ev.set_cell_value(a, v)
         ev2.set_cell_value(a, v)
-        inputs[a] = v
+        inputs[addr] = v
+        g1, g2 = norm(ev.get_cell_value(addr)), norm(ev2.get_cell_value(addr))
+        if g1 != g2:
+            res.fail('set-in-extract-not-applied:%s' % (
+                'by-name' if a in names else 'by-address'), g1, g2, [a, v])
+            return res
     compare('after-changes')
     return res
